@@ -82,7 +82,7 @@ func Balloon.RebuildCache
 // version the request names): its audit-path visitor panics on a node that does not exist.
 func Balloon.QueryDigestMembership
   props C11
-  requires HyperOK(b.hyperTree) && b.historyTree != nil && b.hasherF != nil && pure_fn(b.hasherF)
+  requires HyperOK(b.hyperTree) && HistProver(b.historyTree) && b.hasherF != nil && pure_fn(b.hasherF)
   may_panic
   modifies everything, proveCalls, lastProveVersion
   ensures isnil(result_1) ==> result_0 != nil && result_0.HyperProof != nil
@@ -90,7 +90,7 @@ func Balloon.QueryDigestMembership
 
 func Balloon.QueryDigestMembershipConsistency
   props C11
-  requires HyperOK(b.hyperTree) && b.historyTree != nil && b.hasherF != nil && pure_fn(b.hasherF)
+  requires HyperOK(b.hyperTree) && HistProver(b.historyTree) && b.hasherF != nil && pure_fn(b.hasherF)
   may_panic
   modifies everything, proveCalls, lastProveVersion
   ensures isnil(result_1) ==> result_0 != nil && result_0.HyperProof != nil
